@@ -173,6 +173,23 @@ def real_parse(cls, t, data: dict):
     return ("ok", canon_plain(t, plain_of_instance(t, m)))
 
 
+def real_parse_seq(cls, t, rows: list):
+    """the rows parsed one after the other by ONE RowParser (as SheetParser does for a sheet)"""
+    from rpft.parsers.common.cellparser import CellParser
+    from rpft.parsers.common.rowparser import RowParser
+
+    rp = RowParser(cls, CellParser())
+    out = []
+    for data in rows:
+        try:
+            m = rp.parse_row(dict(data))
+        except Exception as e:  # noqa: BLE001
+            out.append(("err", type(e).__name__))
+            continue
+        out.append(("ok", canon_plain(t, plain_of_instance(t, m))))
+    return out
+
+
 def model_result(r):
     """{"ok": v} | {"err": k} from the driver → same shape as real_parse"""
     if r is None:
